@@ -361,7 +361,8 @@ def class_table(mods):
 OPS = {ast.Lt: "OpLt", ast.LtE: "OpLe", ast.Gt: "OpGt", ast.GtE: "OpGe", ast.Eq: "OpEq", ast.NotEq: "OpNe"}
 
 
-def vtest(node, where, is_input, loopvar=None):
+def vtest(node, where, is_input, loopvar=None, alias=None):
+    """alias: a local name bound to AwesomeVersion(<the input>) - counts as the wrapped input."""
     neg = "false"
     if isinstance(node, ast.UnaryOp) and isinstance(node.op, ast.Not):
         neg, node = "true", node.operand
@@ -373,6 +374,8 @@ def vtest(node, where, is_input, loopvar=None):
                    and len(e.args) == 1 and not e.keywords)
         if wrapped:
             e = e.args[0]
+        elif alias and isinstance(e, ast.Name) and e.id == alias:
+            return "VInput"
         elif must_wrap:
             fail(where, e)
         if is_input(e):
@@ -458,17 +461,35 @@ def version_facts(mods):
     if [a.arg for a in fn.args.args] != ["value"] or len(body) != 1 or not isinstance(body[0], ast.Try):
         fail(w, "shape")
     tr = body[0]
-    if tr.orelse or tr.finalbody or len(tr.handlers) != 1 or len(tr.body) != 3:
+    if tr.orelse or tr.finalbody or len(tr.handlers) != 1 or len(tr.body) not in (3, 5):
         fail(w, tr)
-    s0, s1, s2 = tr.body
+    s0, s2 = tr.body[0], tr.body[-1]
     if ast.unparse(s0).replace(" ", "") != "value=str(value)" or ast.unparse(s2) != "return value":
         fail(w, s0 if ast.unparse(s2) == "return value" else s2)
-    if not (isinstance(s1, ast.If) and not s1.orelse and len(s1.body) == 1 and isinstance(s1.body[0], ast.Raise)):
-        fail(w, s1)
-    raised = s1.body[0].exc
-    if isinstance(raised, ast.Call):
-        raised = raised.func
-    raised_cls = eval(compile(ast.Expression(raised), "<is_version>", "eval"), validation.__dict__)
+
+    def if_raise(st):
+        if not (isinstance(st, ast.If) and not st.orelse and len(st.body) == 1 and isinstance(st.body[0], ast.Raise)
+                and st.body[0].exc is not None):
+            fail(w, st)
+        r = st.body[0].exc
+        r = r.func if isinstance(r, ast.Call) else r
+        return eval(compile(ast.Expression(r), "<is_version>", "eval"), validation.__dict__)
+
+    alias, container_raise = None, None
+    if len(tr.body) == 5:
+        # version = AwesomeVersion(value); if version.strategy == AwesomeVersionStrategy.SPECIALCONTAINER: raise ...
+        sa, sc, s1 = tr.body[1:4]
+        if not (isinstance(sa, ast.Assign) and len(sa.targets) == 1 and isinstance(sa.targets[0], ast.Name)
+                and sa.targets[0].id != "value" and ast.unparse(sa.value).replace(" ", "") == "AwesomeVersion(value)"):
+            fail(w, sa)
+        alias = sa.targets[0].id
+        container_raise = if_raise(sc)
+        if ast.unparse(sc.test).replace(" ", "") != f"{alias}.strategy==AwesomeVersionStrategy.SPECIALCONTAINER" or \
+                validation.__dict__.get("AwesomeVersionStrategy") is not awesomeversion.AwesomeVersionStrategy:
+            fail(w, sc.test)
+    else:
+        s1 = tr.body[1]
+    raised_cls = if_raise(s1)
     h = tr.handlers[0]
     caught = eval(compile(ast.Expression(h.type), "<is_version>", "eval"), validation.__dict__)
     caught = caught if isinstance(caught, tuple) else (caught,)
@@ -479,9 +500,13 @@ def version_facts(mods):
     reraised_cls = eval(compile(ast.Expression(reraised), "<is_version>", "eval"), validation.__dict__)
     if not (isinstance(reraised_cls, type) and issubclass(reraised_cls, vol.Invalid)):
         fail(w, h.body[0])
-    out.append("Definition is_version_test : vtest := %s." % vtest(s1.test, w, is_name("value")))
+    out.append("Definition is_version_test : vtest := %s." % vtest(s1.test, w, is_name("value"), alias=alias))
     out.append("Definition is_version_catches_own_raise : bool := %s." %
                ("true" if isinstance(raised_cls, type) and issubclass(raised_cls, caught) else "false"))
+    out.append("Definition is_version_rejects_container : bool := %s." % ("true" if alias else "false"))
+    out.append("Definition is_version_catches_container_raise : bool := %s." %
+               ("true" if container_raise is None or (isinstance(container_raise, type)
+                                                     and issubclass(container_raise, caught)) else "false"))
     out.append("Definition is_version_catches_compare_error : bool := %s." %
                ("true" if issubclass(awesomeversion.AwesomeVersionCompareException, caught) else "false"))
     # safe_is_version
